@@ -14,9 +14,9 @@ from multiprocessing import Pool
 from harness import common as C
 
 PROP = "C18"
-# 1: /repo contains the fix: commit for C18-F1 (create_backup also refuses a name that exists on disk);
+# 1: /repo contains fix commit fb42f68 for C18-F1 (create_backup also refuses a name that exists on disk);
 #    correspondence uses the model with fixed=true and the oracle accepts no known-finding class.
-# 0: the code before that commit (model fixed=false, stale-manager overwrite = known finding C18-F1).
+# 0: the behaviour before fix commit fb42f68 (model fixed=false; the stale-manager overwrite was finding C18-F1).
 FIXED = int(os.environ.get("VERIF_C18_FIXED", "1"))
 COQ_TARGETS = ["Props/C18.vo", "Extract/ExtractC18.vo"]
 TRUSTED = [
@@ -45,6 +45,14 @@ ASSUMPTIONS = [
     "tied by the restore effect-trace correspondence (the real restore must perform exactly the model's mkdir/copy "
     "effects: one copy per selected recorded file) and searched on the implementation by same-size in-place edits "
     "whose atime/mtime are reset to the pre-edit values, to the backup copy's values, or back-dated",
+    "outcomes after a crash: the property names two (not listed / listed complete); the code has a third, counted as "
+    "'not listed': the constructor raises (C18_crash_midway_raises: exactly between the first mkdir and the completed "
+    "record).  While the half-made backups/<name> exists no BackupManager can be constructed, so every other backup of "
+    "that directory is unavailable too -- behaviour of the code, observed by the harness, not excluded by the property",
+    "C18_restore_total establishes when a full restore completes (harmless edits outside the backup, non-empty "
+    "selection); the other restore/remodel theorems (C18_restore_identical, _selected_from_backup, C18_remodel_idempotent, "
+    "C18_remodel_from_backup) are stated for runs that complete; completion of a task-filtered restore and of a remodel "
+    "run is shown by the harness only",
     "C18_restore_identical / C18_remodel_idempotent / C18_remodel_from_backup are stated for runs that complete "
     "(a restore or remodel aborted by an OS error is outside the statement); the backup record seen by the "
     "second remodel run is taken equal to the first (the run provably never writes below backups/<name>)",
@@ -54,9 +62,11 @@ ASSUMPTIONS = [
     "backup names are strings as the API/CLI accept them; the model resolves them like realpath(join(backups_path, "
     "name)) (empty and '.' components vanish): covered are all spellings resolving to ONE directory entry ('b1/', "
     "'./b1', 'b1/.', 'b1//'); nested names ('a/b'), '..' and absolute names are outside the model and not generated",
-    "C18_never_overwritten (code after the fix: commit, create_backup true): any manager object, any file system in "
+    "C18_never_overwritten (current /repo = after fix commit fb42f68, create_backup true; the bare statement is the "
+    "modelled guard read back, its corollaries _listed/_alias/crash_then_create carry content): any manager object, any file system in "
     "which backups/<name> exists; C18_never_overwritten_stale_refuted keeps the witness of the repaired defect "
-    "(create_backup false); VERIF_C18_FIXED=0 checks the pre-fix code against fixed=false",
+    "(behaviour before fix commit fb42f68, create_backup false); VERIF_C18_FIXED=0 checks that old behaviour against "
+    "fixed=false",
 ]
 
 TS = "2026-01-02 03:04:05.678901"
@@ -220,11 +230,11 @@ class Instr:
         return False
 
 
-def manager_outcome(root):
+def manager_outcome(root, backups_root=None):
     """What a fresh BackupManager says: ["exn", name] or ["ok", {backup: [keys]}, manager]."""
     from hed.tools.remodeling.backup_manager import BackupManager
     try:
-        m = BackupManager(root)
+        m = BackupManager(root, backups_root=backups_root)
     except Exception as e:  # noqa
         return ["exn", exn_name(e)], None
     return ["ok", {b: list(d.keys()) for b, d in m.backups_dict.items()}], m
@@ -435,16 +445,35 @@ def real_hist(scn):
     base = C.scratch_dir("hedverif-c18-")
     out = {"violations": [], "steps": []}
     try:
-        root = os.path.join(base, "data")
+        # the names of the dataset root (and its ancestors) and of an alternative backups location (-bd /
+        # backups_root) are inputs too; with "bd" the external location is shown in the snapshots at the
+        # standard place derivatives/remodel/backups (the model is not consulted for such scenarios)
+        root = os.path.join(base, scn.get("rootname", "data"))
         build_tree(root, scn["tree"])
+        bd = os.path.join(base, scn["bd"]) if scn.get("bd") else None
+        bd_args = ["-bd", bd] if bd else []
+        bk_abs = bd or os.path.join(root, *REL_BACKUPS)
+
+        def mk():
+            return BackupManager(root, backups_root=bd)
+
+        def snapshot_(r):
+            sn = snapshot(r)
+            if bd and os.path.isdir(bd):
+                pre_ = "/".join(REL_BACKUPS)
+                for i_ in range(1, len(REL_BACKUPS) + 1):
+                    sn["/".join(REL_BACKUPS[:i_])] = None
+                for k_, v_ in snapshot(bd).items():
+                    sn[pre_ + "/" + k_] = v_
+            return sn
         model_path = os.path.join(base, "ops.json")
         with builtins.open(model_path, "w") as f:
             json.dump(OPS, f)
-        out["tree0"] = snapshot(root)
+        out["tree0"] = snapshot_(root)
         originals = {}      # backup name -> {key: bytes at backup time}
         stale = {}
         for si, st in enumerate(scn["steps"]):
-            before = snapshot(root)
+            before = snapshot_(root)
             rec = {"op": st["op"]}
             res = None
             try:
@@ -454,12 +483,12 @@ def real_hist(scn):
                     with Instr(root):
                         if st.get("via") == "cli":
                             # the CLI discovers the files itself; used only for the exists check
-                            run_remodel_backup.main([root, "-bn", st["name"], "-x", "derivatives", "-f", "*", "-e", "*"])
+                            run_remodel_backup.main([root, "-bn", st["name"], "-x", "derivatives", "-f", "*", "-e", "*"] + bd_args)
                             res = ["ok", None]
                         else:
-                            res = ["ok", bool(BackupManager(root).create_backup(files, st["name"]))]
+                            res = ["ok", bool(mk().create_backup(files, st["name"]))]
                 elif st["op"] == "hold":          # construct a manager now, use it later (stale)
-                    stale[st["id"]] = BackupManager(root)
+                    stale[st["id"]] = mk()
                     res = ["ok"]
                 elif st["op"] == "stale":
                     files = [os.path.join(root, f) for f in st["files"]]
@@ -492,7 +521,7 @@ def real_hist(scn):
                             if st["meta"] == "keep":
                                 os.utime(p, ns=(stt.st_atime_ns, stt.st_mtime_ns))
                             elif st["meta"] == "backup":
-                                cands = [os.path.join(root, *REL_BACKUPS, nm_, "backup_root", st["path"]) for nm_ in originals]
+                                cands = [os.path.join(bk_abs, nm_, "backup_root", st["path"]) for nm_ in originals]
                                 cands = [c for c in cands if os.path.isfile(c)]
                                 ref = os.stat(cands[0]) if cands else stt
                                 os.utime(p, ns=(ref.st_atime_ns, ref.st_mtime_ns))
@@ -502,15 +531,15 @@ def real_hist(scn):
                     res = ["ok"]
                 elif st["op"] == "restore":
                     try:
-                        BackupManager(root)          # the constructor's own mkdirs are not part of the restore trace
+                        mk()                         # the constructor's own mkdirs are not part of the restore trace
                     except Exception:  # noqa
                         pass
                     with Instr(root) as ins:
                         try:
                             if st.get("via") == "cli":
-                                run_remodel_restore.main([root, "-bn", st["name"]] + (["-t"] + st["tasks"] if st["tasks"] else []))
+                                run_remodel_restore.main([root, "-bn", st["name"]] + bd_args + (["-t"] + st["tasks"] if st["tasks"] else []))
                             else:
-                                BackupManager(root).restore_backup(st["name"], st["tasks"], verbose=False)
+                                mk().restore_backup(st["name"], st["tasks"], verbose=False)
                         finally:
                             rec["trace"] = ins.trace
                     res = ["ok"]
@@ -535,11 +564,11 @@ def real_hist(scn):
                     finally:
                         run_remodel.parse_tasks = o_parse
                 elif st["op"] == "list":
-                    oc, _m = manager_outcome(root)
+                    oc, _m = manager_outcome(root, bd)
                     res = oc
             except Exception as e:  # noqa
                 res = ["exn", exn_name(e)]
-            after = snapshot(root)
+            after = snapshot_(root)
             rec["result"] = res
             rec["state"] = after
             changed = {p for p in set(before) | set(after) if before.get(p, "<absent>") != after.get(p, "<absent>")}
@@ -556,9 +585,15 @@ def real_hist(scn):
                 elif res[0] == "ok" and res[1] is not False and f"{bdir}/{nm}/backup_lock.json" in after:
                     rec["keys"] = list(json.loads(after[f"{bdir}/{nm}/backup_lock.json"]))
                     originals[nm] = {k: before.get(k) for k in rec["keys"]}
-                    oc, m2 = manager_outcome(root)
+                    oc, m2 = manager_outcome(root, bd)
                     if m2 is None or nm not in m2.backups_dict:
                         out["violations"].append(["created-backup-listed", si, f"{oc[:2]}", None])
+                    elif set(m2.backups_dict[nm]) != set(rec["keys"]) or \
+                            (st.get("via") != "cli" and set(rec["keys"]) != set(st["files"])):
+                        # a fresh manager lists the backup with EVERY recorded file (and the record names the selection)
+                        out["violations"].append(["created-backup-lists-every-file", si,
+                                                  f"listed {sorted(m2.backups_dict[nm])} record {sorted(rec['keys'])} "
+                                                  f"selection {sorted(st['files'])}"[:400], None])
                     else:
                         for msg in check_listed_complete(m2, nm, before, "after create"):
                             out["violations"].append(["created-backup-complete", si, msg, None])
@@ -642,6 +677,8 @@ def model_ok_names(scn):
     for st in scn.get("steps", []):
         names += [st.get("name", ""), st.get("path", "")] + st.get("files", []) + st.get("tasks", [])
     names += scn.get("files", [])
+    if scn.get("bd"):
+        return False
     return all(ok(n) and not n.startswith("ABS:") for n in names)
 
 
@@ -764,7 +801,10 @@ DOTTED = [".orig", ".staging", ".a.b", "..x", "...", ".git", " lead", "trail ", 
 ODD = ['q"t', "back\\slash", "br{ace}", "co,mma", "col:on", "it's", "[b]"]
 OUTSIDE = ["café", "日本", "tab\tname", "nl\nname"]
 TASKS = ["go", "stop", "x", ""]
-BNAMES = ["default_back", "b1", "bk 2", 'x"y', "back.up", "B\\1"]
+BNAMES = ["default_back", "b1", "bk 2", 'x"y', "back.up", "B\\1", "before_task_go_cleanup", "task_x"]
+# names of the dataset root (with ancestors) and of an alternative backups location
+ROOTS = ["data", "data", "study_task_gonogo", "task_x/ds", "my data/.r"]
+BDS = ["alt_backups", "bk_task_go_store/task_stop"]
 
 
 def gen_tsv(rng):
@@ -775,7 +815,7 @@ def gen_tsv(rng):
 
 
 def gen_blob(rng):
-    n = rng.choice([0, 1, 2, 5, 9, 17, 40])
+    n = rng.choice([0, 0, 1, 2, 5, 9, 17, 40])
     return "".join(chr(rng.randrange(256)) for _ in range(n))
 
 
@@ -857,6 +897,8 @@ def gen_hist(rng, i):
         tree["f_task_go_events.tsv"] = gen_tsv(rng)
         fl = files_of(tree)
     name = rng.choice(BNAMES)
+    rootname = rng.choice(ROOTS)
+    bd = rng.choice(BDS) if rng.random() < 0.12 else None
     first = name if rng.random() < 0.85 else alias(name, rng.randint(1, 5))
     steps = []
     stale = rng.random() < 0.15
@@ -872,6 +914,10 @@ def gen_hist(rng, i):
         steps.append({"op": "create", "files": sel, "name": first})
     dirs = [""] + [r for r, v in tree.items() if v is None and not r.startswith("derivatives")]
     live = set(fl)
+    empties = [f for f in sel if tree.get(f) == ""]
+    if empties and rng.random() < 0.7:
+        steps.append({"op": "write", "path": rng.choice(empties), "data": rng.choice(["x", gen_tsv(rng)])})
+        steps.append({"op": "restore", "name": name, "tasks": [], "via": rng.choice(["api", "cli"])})
     for _ in range(rng.randint(2, 8)):
         x = rng.random()
         if x < 0.3:
@@ -898,7 +944,7 @@ def gen_hist(rng, i):
                           "tasks": rng.choice([[], [], ["go"], ["x", "go"], ["stop"], [""]]),
                           "via": rng.choice(["api", "cli"])})
             live |= set(sel)
-        elif x < 0.85:
+        elif x < 0.85 and not bd:      # run_remodel takes no alternative backups location
             st = {"op": "remodel", "name": name, "tasks": rng.choice([[], [], ["go"], ["stop", "go"]])}
             steps += [st, dict(st)]
         elif x < 0.92:
@@ -911,7 +957,10 @@ def gen_hist(rng, i):
         steps.append({"op": "write", "path": sel[0], "data": "CHANGED AFTER BACKUP\n"})
         steps.append({"op": "stale", "id": "0", "files": sel, "name": alias(name, rng.randint(0, 5))})
     steps.append({"op": "list"})
-    return {"kind": "hist", "tree": tree, "steps": steps}
+    scn = {"kind": "hist", "tree": tree, "steps": steps, "rootname": rootname}
+    if bd:
+        scn["bd"] = bd
+    return scn
 
 
 CORPUS = [
@@ -971,6 +1020,38 @@ CORPUS = [
                {"op": "list"}]},
     {"kind": "crash", "tree": {".s": None, ".s/a.txt": "xyz", "a.txt": "uvw", ".s/.t": None, ".s/.t/a.txt": "1"},
      "files": [".s/a.txt", "a.txt", ".s/.t/a.txt"], "name": "b1", "pre": []},
+    # task-restricted restores when the backup name, the dataset directory, an ancestor or the backups location
+    # contain 'task_<requested name>': only the file's BASE name decides
+    {"kind": "hist", "rootname": "task_stop_lab/study_task_gonogo",
+     "tree": {"f_task_go_events.tsv": "onset\tduration\n1\t2\n", "f_task_stop_events.tsv": "onset\tduration\n3\t4\n",
+              "task_go": None, "task_go/notes.txt": "n"},
+     "steps": [{"op": "create", "files": ["f_task_go_events.tsv", "f_task_stop_events.tsv", "task_go/notes.txt"],
+                "name": "before_task_go_cleanup"},
+               {"op": "write", "path": "f_task_stop_events.tsv", "data": "edited stop\n"},
+               {"op": "write", "path": "f_task_go_events.tsv", "data": "edited go\n"},
+               {"op": "write", "path": "task_go/notes.txt", "data": "edited notes"},
+               {"op": "restore", "name": "before_task_go_cleanup", "tasks": ["go"], "via": "api"},
+               {"op": "write", "path": "f_task_go_events.tsv", "data": "edited go again\n"},
+               {"op": "restore", "name": "before_task_go_cleanup", "tasks": ["go"], "via": "cli"},
+               {"op": "remodel", "name": "before_task_go_cleanup", "tasks": ["go"]},
+               {"op": "remodel", "name": "before_task_go_cleanup", "tasks": ["go"]},
+               {"op": "list"}]},
+    {"kind": "hist", "rootname": "data", "bd": "bk_task_go_store",
+     "tree": {"f_task_go_events.tsv": "g", "f_task_stop_events.tsv": "s"},
+     "steps": [{"op": "create", "files": [], "name": "b1", "via": "cli"},
+               {"op": "write", "path": "f_task_stop_events.tsv", "data": "edited"},
+               {"op": "write", "path": "f_task_go_events.tsv", "data": "edited"},
+               {"op": "restore", "name": "b1", "tasks": ["go"], "via": "cli"},
+               {"op": "restore", "name": "b1", "tasks": ["stop"], "via": "api"},
+               {"op": "list"}]},
+    # degenerate sizes: a legitimately empty backed-up file gets content later and is restored by a fresh manager
+    {"kind": "hist", "tree": {"e_events.tsv": "", "sub": None, "sub/empty.bin": "", "n.txt": "n"},
+     "steps": [{"op": "create", "files": ["e_events.tsv", "sub/empty.bin", "n.txt"], "name": "b1"},
+               {"op": "list"},
+               {"op": "write", "path": "e_events.tsv", "data": "onset\tduration\n1\t2\n"},
+               {"op": "write", "path": "sub/empty.bin", "data": "\x00"},
+               {"op": "restore", "name": "b1", "tasks": [], "via": "cli"},
+               {"op": "list"}]},
     # the Coq non-vacuity instance, every crash point and every byte of every partial write
     {"kind": "crash", "tree": {"sub": None, "sub/a_task_x.t": "\x01\x02\x03", 'c"\\': "\x07"},
      "files": ["sub/a_task_x.t", 'c"\\'], "name": "b1", "all_k": True, "pre": []},
